@@ -328,6 +328,11 @@ def r4(run):
         l = q.root_local(b, c.args[1])
         good = [w for w in writes if w[1] == l and all(o.startswith("field:") and "self" in o for o in w[2])]
         ok = bool(good) and q.dominated(b, c.bb, via_blocks=[w[0] for w in good])
+        if not ok:
+            # re-homing done in a pass over the whole output vector before the first append
+            from . import C15 as c15
+            pre = [w for w in writes if all(o.startswith("field:") and "self" in o for o in w[2])]
+            ok = bool(pre) and c15.prepass_covers(b, c, [w[0] for w in pre])
         run.ob("xs::handlers::handler::Handler::process_frame|append|rehomed", ok, c.sp,
                "every appended output frame has context_id overwritten with self.context_id first (%s)" % [sorted(w[2]) for w in writes], reason="handler-output-escapes-context")
 
